@@ -173,7 +173,10 @@ def number(case):
     def go(node):
         i = len(objs)
         if "c" in node:
-            objs.append({"id": i, "cls": f"L{node['c']}", "name": node.get("name"), "node": node})
+            nm = node.get("name")
+            if nm is None and case["leaves"][node["c"]] == "opt":
+                nm = ""  # textX initialises an unmatched optional `name=ID` with '': that is the object's name value
+            objs.append({"id": i, "cls": f"L{node['c']}", "name": nm, "node": node})
             for k in node.get("kids", []):
                 go(k)
         else:
@@ -325,6 +328,15 @@ class Prop(Check):
         "Link.C07_all_ok_iff",
         "Link.C07_first_failure",
         "Link.C07_single_and_list",
+        "Link.C07_no_ref",
+        "Link.C07_candidates_no_ref",
+        "Link.C07_store_skeleton",
+        "Link.C07_pass_frame",
+        "Link.C07_pass_frame_iff",
+        "Link.C07_stored_list",
+        "Link.C07_stored_single",
+        "Link.C07_stored_none",
+        "Link.C07_found_iff_isinstance",
     ]
     DRIVER = "Drivers/Link.lean"
     QUICK_CASES = 800
@@ -341,8 +353,11 @@ class Prop(Check):
             "type conformance, uniqueness or the builtins fallback decides the outcome")
     MODELLED = ("hand-modelled: model.py get_children (Link.follow/getChildren), scoping/providers.py PlainName.__call__ "
                 "multi_metamodel_support branch (Link.plainName), model.py resolve_one_step builtins fallback / Unknown "
-                "object / single pass over parser._crossrefs (Link.resolveRef/resolveAll); conformance "
-                "(textx_isinstance) is a parameter of the model, instantiated with the grammar's declared alternatives; "
+                "object / single pass over parser._crossrefs (Link.resolveRef/resolveAll) and the same pass with its "
+                "stores — setattr / list insert before the next lookup — (Link.resolveAllSt/storeRef/readObj, compared "
+                "with the attribute values of the loaded model); conformance (textx_isinstance) is a parameter of the "
+                "model, instantiated with the grammar's declared alternatives and cross-checked per case against the "
+                "C03 textx_isinstance model (Link.confOfGrammar); an unmatched optional name=ID is the name value ''; "
                 "name values (str / int / float / bool) are encoded as strings injectively modulo Python equality; "
                 "tie X: resolved targets by object identity, failing reference and error kind, direct provider calls; "
                 "not exhibited: user __eq__ overrides, names of unhashable type, mixed numeric name types in one "
@@ -389,9 +404,12 @@ class Prop(Check):
             for v in pools[k]:
                 if nkey(v) not in [nkey(x) for x in values]:
                     values.append(v)
-        # an unmatched optional `name=ID` is '' in textX; whether that makes the object the target of a
-        # STRING reference "" is not decided by the statement: unnamed objects only when "" is not in use
-        allow_unnamed = "" not in values
+        # an unmatched optional `name=ID` is '' in textX: the object's `name` attribute has the value '' and a
+        # STRING reference "" designates it like any other object whose name equals the reference text (D07: the
+        # generator used to avoid unnamed objects whenever "" was in use)
+        if "opt" in leaves and "" not in [v for v in values if isinstance(v, str)] and rng.chance(0.5):
+            pools["str"].append("")
+            values.append("")
         # builtins: key from the pools (any kind) or extra; the stored object's own name may differ
         for _ in range(rng.weighted([(0, 3), (1, 3), (2, 2), (3, 1)])):
             nm = rng.choice(values + EXTRA)
@@ -411,7 +429,7 @@ class Prop(Check):
             node = {"c": k}
             mode = leaves[k]
             if mode == "opt":
-                if not allow_unnamed or rng.chance(0.7):
+                if rng.chance(0.7):
                     node["name"] = rng.choice(pid)
             elif mode != "none":
                 node["name"] = rng.choice(pools[LEAF_KIND[mode]])
@@ -648,12 +666,26 @@ class Prop(Check):
         classes = sorted({o["cls"] for o in objs} | {b[1] for b in case["builtins"]})
         conf = [[CLS_R if c == "R" else cls_num(c), cls_num(t)] for c in classes for t in targets_of(case)
                 if conforms(case, c, t)]
+        # the grammar as a C03 rule graph (rule numbers): Model, Elem, A0.., L0.., R (all reference rules RS*/RM* are
+        # common rules that occur as alternatives of Elem only: one rule stands for them)
+        nA, nL = len(case["abstracts"]), len(case["leaves"])
+        ridx = {"Model": 0, "Elem": 1, "R": 2 + nA + nL}
+        ridx.update({f"A{j}": 2 + j for j in range(nA)})
+        ridx.update({f"L{k}": 2 + nA + k for k in range(nL)})
+        gram = [[1, [1]], [0, [ridx[f"L{k}"] for k in range(nL)] + [ridx["R"]]]]
+        gram += [[0, [ridx[a] for a in alts]] for alts in case["abstracts"]]
+        gram += [[1, []] for _ in range(nL)] + [[1, []]]
+        objmap = [[CLS_R if c == "R" else cls_num(c), ridx.get(c, len(gram) + 7)] for c in classes]
+        tgtmap = [[cls_num(t), ridx[t]] for t in targets_of(case) if t != "OBJECT"]
         return {
+            "gram": gram, "objmap": objmap, "tgtmap": tgtmap, "object": CLS_OBJECT,
             "op": "resolve_default",
             "root": lean_obj(case),
             "conf": conf,
             "builtins": [[nkey(b[0]), 1000 + i, cls_num(b[1])] for i, b in enumerate(case["builtins"])],
-            "refs": [[nkey(r["name"]), cls_num(r["t"]), r["owner"], 0] for r in refs],
+            # [name, target class, owner, attribute number, single-valued?]
+            "refs": [[nkey(r["name"]), cls_num(r["t"]), r["owner"], 0, 1 if "one" in objs[r["owner"]]["node"] else 0]
+                     for r in refs],
             "probes": [[nkey(nm), cls_num(t)] for nm, t in self.probe_list(case)] if obs["outcome"] == "ok" else [],
         }
 
@@ -661,6 +693,9 @@ class Prop(Check):
         if "err" in out:
             return f"model rejected the request: {out}"
         res = out["res"]
+        if out.get("conf_diff"):
+            return (f"conformance: the table from the grammar's declared alternatives and the C03 textx_isinstance model "
+                    f"(Link.confOfGrammar) disagree on (object class, target class) {out['conf_diff'][:6]}")
         def tj(t):
             return {"obj": t["obj"]} if "obj" in t else {"builtin": t["builtin"] - 1000}
 
@@ -669,12 +704,23 @@ class Prop(Check):
                 return f"implementation fails ({obs['kind']} at reference {obs['idx']}) but the model resolves every reference"
             if (obs["kind"], obs["idx"]) != (res["fail"], res["idx"]):
                 return f"failure differs: impl {obs['kind']} at reference {obs['idx']}, model {res['fail']} at {res['idx']}"
+            sf = out.get("st_fail")
+            if sf is None or (sf["fail"], sf["idx"]) != (obs["kind"], obs["idx"]):
+                return (f"failure differs: impl {obs['kind']} at reference {obs['idx']}, the model's pass with stores: "
+                        f"{sf if sf is not None else 'succeeds'}")
             return None
         if "fail" in res:
             return f"implementation loads the model but the model fails with {res['fail']} at reference {res['idx']}"
         mattrs = [[o, [tj(t) for t in ts]] for o, _, ts in out["attrs"]]
         if sorted(mattrs, key=lambda x: x[0]) != sorted(obs["attrs"], key=lambda x: x[0]):
             return f"resolved attribute values differ: impl {obs['attrs']} model {mattrs}"
+        # the model's pass *with its stores*: what the reference attributes of the final tree hold
+        if "stored" not in out:
+            return f"implementation loads the model but the model's pass with stores fails: {out.get('st_fail')}"
+        mstored = [[o, None if ids is None else [({"obj": i} if i < 1000 else {"builtin": i - 1000}) for i in ids]]
+                   for o, _, ids in out["stored"]]
+        if sorted(mstored, key=lambda x: x[0]) != sorted(obs["attrs"], key=lambda x: x[0]):
+            return f"reference attributes of the final model differ: impl {obs['attrs']} model (final tree) {mstored}"
         mp = [None if p is None else ("many" if p == "many" else {"obj": p}) for p in out["probes"]]
         if mp != obs["probes"]:
             pl = self.probe_list(case)
